@@ -328,6 +328,10 @@ def obligations_c10(task, p, st, add):
         decoded_here = st.msg is not None
         add('claim-updates-the-source-map-even-when-filtered', (not decoded_here) or updated or kept,
             'a decoded address claim left no identity in the source map', 'claim-map')
+        if p.kind == 'return':
+            # PGN 60928 has one definition without match fields: every claim frame decodes, so every path that returns
+            # (message or None) must have gone through the decode function and the source-map update
+            add('every-claim-is-decoded-whatever-the-filters', True if decoded_here else z3.Or(z3.Not(decodable), KIND(pgn_t) != 1), 'an address claim is dropped before it is decoded: the source map misses it', 'claim-map')
         return
     if fast:
         # frame of a fast packet: must not have been dropped by a filter that an unfiltered decoder would not apply ... and vice versa
@@ -354,6 +358,8 @@ def obligations_c11(task, p, st, add):
     entry = st.map.entries[0][1]
     if task.claim:
         decoded_here = st.msg is not None
+        if p.kind == 'return':
+            add('every-claim-reaches-the-source-map', True if decoded_here else z3.Or(z3.Not(would_be(st)[0]), KIND(st.pgn.t) != 1), 'an address claim returns without being decoded: the source map keeps a stale identity', 'claim-map')
         if decoded_here:
             decodable, lid, data_int = would_be(st)
             same_name = mk_bool(z3.And(present, st.old_name.t == int_term(data_int)))
@@ -576,6 +582,47 @@ class InitTask(Task):
                 dct['replay'] = replay_for(self.prop, 'init', res.model or {})
             out['results'].append(dct)
         return out
+
+
+class ClaimPgnTask(Task):
+    """Facts about PGN 60928 the claim obligations rest on: the generated module classifies it (single frame) and has
+    one decode function for it, so `fast_kind(60928) != 0` and every claim payload reaches the decode function."""
+    def __init__(self, prop):
+        self.prop = prop
+        self.name = f'{prop}:claim-pgn-is-known'
+
+    def run(self, tier):
+        out = {'results': [], 'functions': [], 'notes': [], 'bounded': []}
+        r = repo()
+        r.load('pgns')
+        info = r.func('pgns.is_fast_pgn_60928')
+        ok = False
+        note = 'missing'
+        if info is not None:
+            out['functions'].append(info.describe())
+            res = explore(r, lambda ex: ex._run_body(info, [], {}, None))
+            ok = len(res) == 1 and res[0].kind == 'return' and res[0].value is False
+            note = f'returns {res[0].value if res else None!r}'
+        dec = r.func('pgns.decode_pgn_60928')
+        obs = [Obligation(f'{self.prop}/pgns.is_fast_pgn_60928/exists-and-returns-False', [], z3.BoolVal(ok), kind='lemma', meta={'note': note}),
+               Obligation(f'{self.prop}/pgns.decode_pgn_60928/exists', [], z3.BoolVal(dec is not None), kind='lemma', meta={'note': 'the claim PGN has a decode function'}),
+               Obligation(f'{self.prop}/decoder.ISO_CLAIM_PGN/is-60928', [], z3.BoolVal(claim_constant(r) == 60928), kind='lemma', meta={'note': f'{claim_constant(r)!r}'})]
+        for ob in obs:
+            res = discharge(ob, budget(tier))
+            dct = result_dict(res, with_size=False)
+            if res.status == 'refuted':
+                dct['reason'] = ob.meta.get('note', '')
+            out['results'].append(dct)
+        return out
+
+
+def claim_constant(r):
+    import ast as _ast
+    node = r.load('decoder').assigns.get('ISO_CLAIM_PGN')
+    try:
+        return _ast.literal_eval(node)
+    except Exception:  # noqa
+        return None
 
 
 def init_tasks(prop):
